@@ -260,7 +260,11 @@ func run(c *Case) (viol []string, sig string, msgs int) {
 				add("delivered-on-failure", "synchronize failed (%v) although the handler was invoked", out.err)
 			}
 			// a failure is legitimate only if the state "cannot be transmitted": the transport
-			// rejected a message that was already at the implementation's minimum chunk (<= 8 objects)
+			// rejected a message that was already at the implementation's minimum chunk (<= 8 objects).
+			// Which states of few large objects the implementation refuses beyond that is left open by
+			// the statement (a sharper rule - "every chunk of 4 pods + 4 containers would have fitted" -
+			// is not met by the unchanged tree either: it gives up as soon as a rejected message has
+			// 8 objects, however they are split between the lists)
 			if tr.minReject < 0 || tr.minReject > 8 {
 				add("spurious-failure", "synchronize failed (%v) although no message of <= 8 objects was ever rejected (smallest rejected message: %d objects)", out.err, tr.minReject)
 			}
